@@ -12,15 +12,18 @@ CONFIGS_QUICK = ["A"]
 CONFIGS_THOROUGH = ["A", "R", "ASYNCSTD", "SMOL", "NIO", "GLOMMIO"]
 TECHNIQUE = ('def-use of the read count in the built MIR of Request::read (USED-RESULT); extent pairing of read_payload; loop membership of the stream read and '
              'provenance of the parse extent (MUSTPASS)')
-LEVEL_TEXT = ('Decides four clauses. C06-b: every value Request::read_payload returns is sized by its `size` parameter (the Content-Length), in each of its three '
-              "cases -- body complete in the head's segment, body partly there, body not there -- so bytes behind the announced length (a coalesced next request) are"
-              " never attributed to this request's body. C06-a: in Request::read the count of received bytes flows into the extent of what is parsed (not only into "
-              "the `== 0` test), and read_payload does not decide 'nothing received' from the value of a buffer byte. C06-c: the stream read that fills the head "
-              'buffer is repeated (it sits in a loop) until the head is complete, so a head that arrives in several segments is parsed like the unsplit one. C06-d: '
-              'the extent of what a parse covers is initialised from state kept across requests -- a necessary condition for serving a second request that arrived in'
-              ' the same segment as the first (known finding on the pinned tree: it starts from 0, the coalesced request is dropped). The search for the end of the '
-              'head runs over a prefix of the buffer bounded by the received count, not over the whole buffer (which keeps bytes of earlier requests). These are '
-              'necessary conditions of segmentation independence; the behaviour for all segmentations is not decided.')
+LEVEL_TEXT = ('Decides four clauses. C06-b: every value Request::read_payload returns is sized by its `size` parameter (the Content-Length), in each of its three cas'
+              "es -- body complete in the head's segment, body partly there, body not there -- so bytes behind the announced length (a coalesced next request) are ne"
+              "ver attributed to this request's body. C06-a: in Request::read the count of received bytes flows into the extent of what is parsed (not only into the "
+              "`== 0` test), and read_payload does not decide 'nothing received' from the value of a buffer byte. C06-c: the stream read that fills the head buffer i"
+              's repeated (it sits in a loop) until the head is complete, so a head that arrives in several segments is parsed like the unsplit one. C06-d: the exten'
+              't of what a parse covers is initialised from state kept across requests -- a necessary condition for serving a second request that arrived in the same'
+              ' segment as the first (known finding on the pinned tree: it starts from 0, the coalesced request is dropped). The search for the end of the head runs '
+              'over a prefix of the buffer bounded by the received count, not over the whole buffer (which keeps bytes of earlier requests). C06-c3: inside the loop '
+              "that receives the head, every exit that gives up without parsing depends only on the read's result (count, error) and on counters, never on the conten"
+              "t of the bytes received so far (a decision on a partial head depends on where the segments were cut). C06-e: the session loop's clear-before-each-read"
+              ' clause and the exhaustiveness of the reset (C05-a/b) re-evaluated: whatever one read left in the Request is reset before the next read on every path,'
+              ' also after a refused request. These are necessary conditions of segmentation independence; the behaviour for all segmentations is not decided.')
 
 
 def run(ck, progs):
@@ -31,6 +34,7 @@ def run(ck, progs):
         ck.guard("C06-a USED-RESULT", lambda: c06a(ck, prog))
         ck.guard("C06-b PAIR payload extent", lambda: c06b(ck, prog))
         ck.guard("C06-c MUSTPASS head complete", lambda: c06c(ck, prog))
+        ck.guard("C06-e MUSTPASS nothing carried over", lambda: c06e(ck, prog))
     ck.config = None
 
 
@@ -202,6 +206,51 @@ def c06c(ck, prog):
               "can end a head that has only partly arrived, so a head split across two segments is parsed truncated and refused" % d[:80],
               how="searches a prefix of the buffer bounded by the received count")
     ck.floor("C06-c MUSTPASS head complete", "head-end searches", len(searches), 1)
+    # (c3) while the head is being received, nothing but `the head is complete` is decided from the bytes received so far:
+    # what a partial head looks like depends on where the segments were cut, so a give-up (a return from inside the
+    # receive loop) may depend on the read's result (count, error) and on counters, not on buffer content
+    def _strip_read(d):
+        out, i = "", 0
+        rx = re.compile(r"poll\(|(?<![A-Za-z_])read\(")
+        while i < len(d):
+            m = rx.search(d, i)
+            if not m:
+                out += d[i:]
+                break
+            out += d[i:m.start()] + "<read>"
+            depth, j = 1, m.end()
+            while j < len(d) and depth:
+                depth += (d[j] == "(") - (d[j] == ")")
+                j += 1
+            i = j
+        return out
+    around_rd = sorted([(len(body), h) for h, body in loops.items() if rd.bb in body])
+    if around_rd:
+        L = loops[around_rd[0][1]]
+        outside_parse = [c for c in parse if c.bb not in L]
+        nexit = 0
+        for u in sorted(L):
+            if f.is_cleanup(u):
+                continue
+            for v, lab in f.succ(u):
+                if v in L or f.is_cleanup(v):
+                    continue
+                reach = f.reachable_from(v)
+                if any(c.bb in reach for c in outside_parse):
+                    continue
+                nexit += 1
+                for sb in sorted(L):
+                    t = f.blocks[sb]["t"]
+                    if t["k"] != "switch" or not f.dominates(sb, u):
+                        continue
+                    d = _strip_read(decision.describe_deep(f, t["discr"], 14))
+                    content = "__buf__" in d and not re.search(r"windows\(|find\(|position\(|contains\(|memmem|memchr|ends_with\(", d)
+                    # (`len(__buf__)` is capacity, not content)
+                    content = content and not re.fullmatch(r"[A-Za-z]+\((var:\w+|const \d+),len\([^()]*__buf__[^()]*\)\)", d)
+                    if content:
+                        ck.ob("C06-c MUSTPASS head complete", "receive-loop:no-decision-on-partial-content", False, f.loc(t.get("sp")),
+                              "inside the loop that receives the head, a return without parsing depends on `%s`, i.e. on the content of the bytes received so far: whether the request is dropped then depends on where its head was cut into segments (a cut inside the method token, say), not on the request" % d[:110])
+        ck.ob("C06-c MUSTPASS head complete", "receive-loop:no-decision-on-partial-content", True, f.loc(rd.sp), how="%d give-up exit(s) of the receive loop depend only on the read's result and on counters" % nexit)
     # (d) the number of valid bytes at the start of a parse comes from state kept across requests, not from 0
     ext = [c for c in f.calls() if c.name in ("index", "get_unchecked", "get") and len(c.args) > 1 and "__buf__" in decision.describe_deep(f, c.args[0], 4)
            and f.dominates(c.bb, parse[0].bb)]
@@ -229,3 +278,22 @@ def c06c(ck, prog):
           "" if ok else "the extent of what Request::read parses (`%s`) starts from 0 on every request and the session clears the buffer before each read: bytes of a following request "
           "that arrived in the same segment are dropped, so of two requests sent in one segment only the first is ever answered" % what,
           how="the parse extent is initialised from state kept across requests")
+
+
+def c06e(ck, prog):
+    """`no byte of one request is ever attributed to another request`: whatever one read left in the Request (headers, query,
+    payload, the buffer's bytes) is reset before the next read on the connection, on every path of the session loop -- also
+    after a refused (400/505) request. This is the session loop's clear-before-each-read clause (C05-b) and the reset's
+    exhaustiveness (C05-a), re-evaluated here because a skipped reset is what attributes one request's bytes to the next."""
+    R = "C06-e MUSTPASS nothing carried over"
+    from . import C05
+    sub = type(ck)(ck.prop, ck.tier)
+    sub.config = ck.config
+    sub.guard("C05-b MUSTPASS session loop", lambda: C05.c05b(sub, prog))
+    sub.guard("C05-a EXHAUSTIVE reset", lambda: C05.c05a(sub, prog))
+    n = 0
+    for o in sub.obs:
+        if o["key"] in ("clear-before-each-read", "anchor-lost") or (o["rule"].startswith("C05-a") and not o["key"].startswith("floor:")):
+            n += 1
+            ck.ob(R, o["rule"].split(" ")[0] + ":" + o["key"], o["ok"], o["where"], o["detail"], how=o["how"], nontrivial=o.get("nontrivial", True))
+    ck.floor(R, "reset clauses", n, 10)
